@@ -20,7 +20,7 @@ META = {
     "category": "fault_enumeration",
     "engine": "model-monitor",
     "technique": "runtime monitor: published diagnostics compared with seeded-defect expectations (class, severity, offending line, identifier) over generated valid programs x defect classes x enumerated seeding positions; plus silence on valid programs and on the exhaustive intrinsic-module member sweep",
-    "text": "Every generated valid program (gfortran-validated) must be free of error-severity diagnostics; each of the 19 defect sub-classes of the statement is seeded at positions enumerated from the generator's line roles (all applicable positions in the thorough tier, up to 3 per class and program in quick) and the class's diagnostic must be published on the offending line with the class's severity while no unrelated error appears in any file. Every member of every bundled intrinsic module is imported once (exhaustive).",
+    "text": "Every generated valid program (gfortran-validated) must be free of error-severity diagnostics; each of the 19 defect sub-classes of the statement is seeded at positions enumerated from the generator's line roles (all applicable positions in the thorough tier, up to 3 per class and program in quick) and the class's diagnostic must be published on the offending line with the class's severity while no unrelated error appears in any file. Every member of every bundled intrinsic module is imported once (exhaustive). Further operators: dummy undeclared under an inherited IMPLICIT NONE, USE after IMPLICIT on one line, deferred binding open through an abstract parent; every pass is repeated (same list, no duplicates); every intrinsic-module member name is also declared as a local variable; four hand-written valid programs.",
     "note": "trusted: seeding operators and their expected (severity, line set, identifier); wording of messages is not compared; accepted lines per class were fixed after reviewing the pinned tree by hand (e.g. 'USE after IMPLICIT' is reported on the IMPLICIT line, an unclosed block on its opening line)",
 }
 RULE = ("valid: generated workspaces x styles, all files; intrinsic sweep: every (module, member) of intrinsic.modules.json; seeded: program x class x position "
